@@ -8,6 +8,9 @@ R10.3  section order of exec and launch script, stdout/stderr redirect, exit
        code plumbing, per-rank `case` covers range(n_ranks)
 R10.4  td['environment'] values reach the `export K=V` lines only through a
        quoting function
+R10.5  per-rank dicts the executor adds to td['pre_exec'] / td['post_exec']
+       are keyed the way _get_prep_exec looks entries up
+(R10.3 also: the named environment is sourced before the environment exports)
 """
 
 import ast
@@ -932,8 +935,8 @@ def r10_3(prog, rep, rid='R10.3'):
              'to the sandbox, launcher env, pre_launch, launch command with '
              'stdout/stderr redirect, post_launch; exit codes are taken right '
              'after the command; the per-rank case covers range(n_ranks)',
-             minimum=45)
-    # (49 today; a section which is dropped is reported missing and takes the
+             minimum=46)
+    # (50 today; a section which is dropped is reported missing and takes the
     # two order obligations with its neighbours with it - hence the slack)
     # ---- exec script
     f = prog.method(EXE[0], EXE[1], '_create_exec_script')
@@ -997,6 +1000,7 @@ def r10_3(prog, rep, rid='R10.3'):
     exec_cmd(prog, rep, rid)
     rank_case(prog, rep, rid)
     std_names(prog, rep, rid)
+    task_env_order(prog, rep, rid)
 
 
 def placeholders(fmt):
@@ -1263,6 +1267,269 @@ def std_names(prog, rep, rid):
 
 
 # ------------------------------------------------------------------------------
+# R10.3 (cont.)  the named environment is activated before the task's own
+# environment settings
+#
+def task_env_order(prog, rep, rid):
+    f = prog.method(EXE[0], EXE[1], '_get_task_env')
+    rep.saw(f)
+    P = Pieces(f)
+    g = P.g
+    L = Leaves(f.node, rename=task_rename(f))
+    named = [(n, v) for n, v in P.items
+             if any(isinstance(c.func, ast.Attribute) and
+                    c.func.attr == 'get_task_named_env'
+                    for c in calls_in(v)) or
+             'task/description/named_env' in L.of(v)]
+    exports = [(n, v) for n, v in P.items
+               if 'task/description/environment' in L.of(v)]
+    if not named or not exports:
+        rep.ok(rid, f, 'task env: named environment and environment exports '
+               'are not both generated here (nothing to order)', f.loc())
+        return
+    okay = all(na.id not in g.reachable(nb.id) and
+               nb.id in g.reachable(na.id)
+               for na, _ in named for nb, _ in exports if na is not nb)
+    rep.check(okay, rid, f,
+              "task env: the named environment is sourced before the "
+              "td['environment'] exports",
+              construct='task env:named env<exports',
+              message="in %s the `export K=V` lines of td['environment'] can "
+              'be emitted before the line which sources the named '
+              'environment: the activation script unsets / overrides '
+              'variables, so the described environment does not hold when '
+              'the executable starts' % f.qual,
+              loc=f.loc(named[0][1]),
+              history="named_env='ve1' whose activation sets PATH and unsets "
+              "PYTHONPATH, environment={'PYTHONPATH': '/x', 'PATH': '/y'}: the "
+              'task runs with the values of the activation script')
+
+
+# ------------------------------------------------------------------------------
+# R10.5  producer / consumer agreement on the keys of per-rank entries
+#
+def index_vars(fnode):
+    """names which hold a rank *index* (int): first target of an
+    enumerate() iteration, target of a range() iteration"""
+    out = set()
+    for n in walk(fnode, nested=True):
+        if not isinstance(n, (ast.For, ast.comprehension)):
+            continue
+        it = n.iter
+        if isinstance(it, ast.Call) and dotted(it.func) == 'enumerate' and \
+                isinstance(n.target, (ast.Tuple, ast.List)) and \
+                n.target.elts and isinstance(n.target.elts[0], ast.Name):
+            out.add(n.target.elts[0].id)
+        elif isinstance(it, ast.Call) and dotted(it.func) == 'range' and \
+                isinstance(n.target, ast.Name):
+            out.add(n.target.id)
+    return out
+
+
+def key_shape(fnode, e, idx, _seen=()):
+    """('STR'|'INT', form) of a key expression: the type of the key and how it
+    derives from the rank index `<i>`; None if not recognised"""
+    if isinstance(e, ast.Constant):
+        if isinstance(e.value, bool):
+            return None
+        if isinstance(e.value, str):
+            return ('STR', 'const')
+        if isinstance(e.value, int):
+            return ('INT', 'const')
+        return None
+    if isinstance(e, ast.Name):
+        if e.id in idx:
+            return ('INT', '<i>')
+        if e.id in _seen:
+            return None
+        vals = local_defs(fnode).get(e.id, [])
+        if len(vals) == 1:
+            return key_shape(fnode, vals[0], idx, _seen + (e.id,))
+        return None
+    if isinstance(e, ast.Call) and isinstance(e.func, ast.Name) and \
+            len(e.args) == 1 and not e.keywords:
+        inner = key_shape(fnode, e.args[0], idx, _seen)
+        if inner is None:
+            return None
+        if e.func.id in ('str', 'repr'):
+            return ('STR', inner[1]) if inner[0] == 'INT' else inner
+        if e.func.id == 'int':
+            return ('INT', inner[1])
+        return None
+    if isinstance(e, ast.BinOp) and isinstance(e.op, ast.Mod) and \
+            isinstance(e.left, ast.Constant) and e.left.value in ('%d', '%s',
+                                                                  '%i'):
+        inner = key_shape(fnode, e.right, idx, _seen)
+        return ('STR', inner[1]) if inner else None
+    if isinstance(e, ast.JoinedStr) and len(e.values) == 1 and \
+            isinstance(e.values[0], ast.FormattedValue) and \
+            e.values[0].format_spec is None:
+        inner = key_shape(fnode, e.values[0].value, idx, _seen)
+        return ('STR', inner[1]) if inner else None
+    if isinstance(e, ast.BinOp) and isinstance(e.op, (ast.Add, ast.Sub)) and \
+            isinstance(e.right, ast.Constant) and \
+            isinstance(e.right.value, int):
+        inner = key_shape(fnode, e.left, idx, _seen)
+        if inner and inner[0] == 'INT' and inner[1] == '<i>':
+            if e.right.value == 0:
+                return inner
+            return ('INT', '<i>%s%d' % ('+' if isinstance(e.op, ast.Add)
+                                        else '-', e.right.value))
+    return None
+
+
+def shapes_agree(a, b):
+    if a[0] != b[0]:
+        return False
+    if 'const' in (a[1], b[1]):
+        return True                 # an explicitly named rank
+    return a[1] == b[1]
+
+
+def consumer_keys(prog):
+    """(function, lookup shape, [(node, shape)] of the replication dicts) of
+    _get_prep_exec"""
+    f = prog.method(EXE[0], EXE[1], '_get_prep_exec')
+    loops = [n for n in walk(f.node) if isinstance(n, ast.For) and
+             isinstance(n.iter, ast.Call) and dotted(n.iter.func) == 'range']
+    if len(loops) != 1:
+        raise AnalysisError('UNRECOGNISED-IDIOM %s: %d range() loops'
+                            % (f.where, len(loops)))
+    lp = loops[0]
+    idx = index_vars(f.node)
+    inner = set()
+    for n in walk(lp):
+        if isinstance(n, ast.For) and n is not lp:
+            inner |= set(stores_in_target(n.target))
+    wrapped = {id(a.value) for a in walk(lp) if isinstance(a, ast.Assign)
+               and any(isinstance(t, ast.Name) and t.id in inner
+                       for t in a.targets)}
+    lookups, repl = [], []
+    for n in walk(lp):
+        if isinstance(n, ast.Call) and isinstance(n.func, ast.Attribute) and \
+                n.func.attr == 'get' and n.args and \
+                root_name(n.func.value) in inner:
+            lookups.append((n, key_shape(f.node, n.args[0], idx)))
+        elif isinstance(n, ast.Subscript) and isinstance(n.ctx, ast.Load) \
+                and isinstance(n.value, ast.Name) and n.value.id in inner:
+            lookups.append((n, key_shape(f.node, n.slice, idx)))
+        elif isinstance(n, ast.Dict) and id(n) in wrapped:
+            for k in n.keys:
+                repl.append((n, key_shape(f.node, k, idx)
+                             if k is not None else None))
+    shapes = {sh for _, sh in lookups}
+    if not lookups or None in shapes or len(shapes) != 1:
+        raise AnalysisError('UNRECOGNISED-IDIOM %s: per-rank lookup key not '
+                            'recognised (%s)' % (f.where, [
+                                short(n, 40) for n, _ in lookups]))
+    return f, shapes.pop(), repl
+
+
+def dict_keys_of(f, name):
+    """[(node, key expr)] of the dict which local `name` holds: literal,
+    comprehension, and `name[key] = ..` stores; None if it is no dict built
+    here"""
+    vals = local_defs(f.node).get(name, [])
+    out = []
+    is_dict = False
+    for v in vals:
+        if isinstance(v, ast.Dict):
+            is_dict = True
+            out += [(v, k) for k in v.keys if k is not None]
+        elif isinstance(v, ast.DictComp):
+            is_dict = True
+            out.append((v, v.key))
+        elif isinstance(v, ast.Call) and dotted(v.func) in ('dict',
+                'collections.OrderedDict', 'OrderedDict') and not v.args:
+            is_dict = True
+            out += [(v, ast.Constant(value=k.arg)) for k in v.keywords
+                    if k.arg]
+    if not is_dict:
+        return None
+    for n in walk(f.node, nested=True):
+        tg = []
+        if isinstance(n, ast.Assign):
+            tg = n.targets
+        elif isinstance(n, ast.AugAssign):
+            tg = [n.target]
+        for t in tg:
+            if isinstance(t, ast.Subscript) and isinstance(t.value, ast.Name) \
+                    and t.value.id == name:
+                out.append((n, t.slice))
+    return out
+
+
+def r10_5(prog, rep, rid='R10.5'):
+    rep.rule(rid, 'per-rank entries which the executor itself adds to '
+             "td['pre_exec'] / td['post_exec'] are keyed the way "
+             '_get_prep_exec looks them up (type and form of the key derived '
+             'from the rank index)', minimum=2)
+    fc, want, repl = consumer_keys(prog)
+    rep.saw(fc)
+    for n, sh in repl:
+        if sh is None:
+            raise AnalysisError('UNRECOGNISED-IDIOM %s: key of `%s`'
+                                % (fc.where, short(n, 50)))
+        rep.check(shapes_agree(sh, want), rid, fc,
+                  'the dict which replicates a plain string entry is keyed '
+                  'like the lookup (%s of %s)' % want, construct=n,
+                  message='%s wraps a plain string entry into `%s` but looks '
+                  'entries up with a key of another type / form: the command '
+                  'is emitted for no rank' % (fc.qual, short(n, 50)),
+                  loc=fc.loc(n),
+                  history="pre_exec=['module load x', {'0': 'y'}]: `module "
+                  'load x` runs on no rank')
+    P = prog.cls(*POPEN)
+    funcs, _ = reach(prog, P, ['_create_exec_script', '_create_launch_script'])
+    n_prod = 0
+    for w in sorted(funcs):
+        f = funcs[w]
+        idx = index_vars(f.node)
+        for c in calls_in(f.node, nested=True):
+            if not (isinstance(c.func, ast.Attribute) and
+                    c.func.attr in ('append', 'insert', 'extend') and c.args
+                    and const_key(c.func.value) in ('pre_exec', 'post_exec')):
+                continue
+            arg = c.args[-1]
+            keys = None
+            if isinstance(arg, ast.Name):
+                keys = dict_keys_of(f, arg.id)
+            elif isinstance(arg, ast.Dict):
+                keys = [(arg, k) for k in arg.keys if k is not None]
+            elif isinstance(arg, ast.DictComp):
+                keys = [(arg, arg.key)]
+            if keys is None:
+                continue                      # a plain command (string)
+            rep.saw(f)
+            for node, k in keys:
+                n_prod += 1
+                sh = key_shape(f.node, k, idx)
+                if sh is None:
+                    raise AnalysisError(
+                        'UNRECOGNISED-IDIOM %s: key `%s` of the per-rank '
+                        'entry added to %s' % (f.where, short(k, 40),
+                                               const_key(c.func.value)))
+                rep.check(shapes_agree(sh, want), rid, f,
+                          "per-rank entry added to td['%s'] is keyed like the "
+                          'lookup of _get_prep_exec (%s of %s)'
+                          % (const_key(c.func.value), want[0], want[1]),
+                          construct='%s:key' % short(c, 60),
+                          message="%s adds a per-rank dict to td['%s'] whose "
+                          'keys are %s (%s) while _get_prep_exec looks '
+                          'entries up with %s keys (%s): no rank finds its '
+                          'entry, the commands are silently dropped'
+                          % (f.qual, const_key(c.func.value), sh[0], sh[1],
+                             want[0], want[1]),
+                          loc=f.loc(node),
+                          history='2 ranks with one GPU each: neither rank '
+                          'exports CUDA_VISIBLE_DEVICES, both use GPU 0')
+    rep.stat('R10.5 producer keys', n_prod)
+    if not n_prod:
+        raise AnalysisError('R10.5: the executor adds no per-rank dict to '
+                            "td['pre_exec'] any more (recogniser blind?)")
+
+
+# ------------------------------------------------------------------------------
 #
 def run(prog, rep, tier):
     rep.decided = ('each `export RP_X=` line of _get_rp_env / _get_rank_ids is '
@@ -1276,7 +1543,10 @@ def run(prog, rep, tier):
         'section order of exec and launch script, cd to the sandbox, '
         'stdout/stderr redirect fed by the described names, RP_RET taken '
         'right after the command, per-rank case covers range(n_ranks) and is '
-        'keyed by the rank id.')
+        'keyed by the rank id; the named environment is sourced before the '
+        "td['environment'] exports; per-rank entries the executor adds "
+        '(CUDA_VISIBLE_DEVICES) use the key type and form of the lookup in '
+        '_get_prep_exec.')
     rep.undecided = ('what bash does with the generated text: `$`, back-ticks '
         'and globs inside sh_quote\'d words (library code), the unquoted '
         'executable and pre/post commands (they are shell text by contract), '
@@ -1296,6 +1566,7 @@ def run(prog, rep, tier):
     r10_2(prog, rep, classes)
     r10_3(prog, rep)
     r10_4(prog, rep)
+    r10_5(prog, rep)
     if tier == 'thorough':
         # sweep: every launcher class of the package (not only the factory
         # table) and every executor class: argument quoting in get_exec
@@ -1440,4 +1711,46 @@ SILENT = [
         (_E, "        ret += 'wait $RP_RANK_PID\\n'\n\n        # set output\n        ret += 'RP_RET=$?\\n'\n", "        ret += 'wait $RP_RANK_PID\\nRP_RET=$?\\n'\n")]),
     dict(name='K4 repaired with sh_quote (values quoted)', edits=[
         (_E, "                ret += 'export %s=\"%s\"\\n' % (key, val)\n", "                ret += 'export %s=%s\\n' % (key, ru.sh_quote(str(val)))\n")]),
+]
+
+
+_RANK_ENV = "            rank_env = {}\n            for rank_id,slot in enumerate(slots):\n                rank_env[str(rank_id)] = \\\n                    'export CUDA_VISIBLE_DEVICES=%s' % \\\n                    ','.join([str(g['index']) for g in slot['gpus']])\n"
+_NAMED    = "        # named_env's are prepared by the launcher\n        if td['named_env']:\n            ret += '\\n# named environment\\n'\n            ret += '. %s\\n' % launcher.get_task_named_env(td['named_env'])\n\n"
+_ENVIRON  = "        # also add any env vars requested in the task description\n        if td['environment']:\n            ret += '\\n# task env settings\\n'\n            for key, val in td['environment'].items():\n                ret += 'export %s=\"%s\"\\n' % (key, val)\n\n"
+
+MUTATIONS += [
+    dict(name='R10.5 per-rank CUDA entry keyed by the int rank index (seed C10-a)', rules=('R10.5',), edits=[
+        (_E, _RANK_ENV,
+         "            gpu_ids  = [','.join([str(g['index']) for g in slot['gpus']])\n                        for slot in slots]\n            rank_env = {rank_id: 'export CUDA_VISIBLE_DEVICES=%s' % ids\n                        for rank_id,ids in enumerate(gpu_ids)}\n")]),
+    dict(name='R10.5 per-rank CUDA entry stored under the loop index', rules=('R10.5',), edits=[
+        (_E, "                rank_env[str(rank_id)] = \\\n", "                rank_env[rank_id] = \\\n")]),
+    dict(name='R10.5 per-rank CUDA entry keyed one off', rules=('R10.5',), edits=[
+        (_E, "                rank_env[str(rank_id)] = \\\n", "                rank_env[str(rank_id + 1)] = \\\n")]),
+    dict(name='R10.5 consumer looks entries up by the int rank', rules=('R10.5',), edits=[
+        (_E, "                for cmd in ru.as_list(entry.get(str(rank_id))):", "                for cmd in ru.as_list(entry.get(rank_id)):")]),
+    dict(name='R10.5 plain strings replicated under an int key', rules=('R10.5',), edits=[
+        (_E, "                    entry = {str(rank_id): entry}", "                    entry = {rank_id: entry}")]),
+    dict(name='R10.3 named env sourced after the environment exports (seed C10-b)', rules=('R10.3',), edits=[
+        (_E, _NAMED + _ENVIRON, _ENVIRON + _NAMED)]),
+    dict(name='R10.3 named env sourced at the end of the environment block', rules=('R10.3',), edits=[
+        (_E, _NAMED, ""),
+        (_E, "                ret += 'export %s=\"%s\"\\n' % (key, val)\n\n",
+             "                ret += 'export %s=\"%s\"\\n' % (key, val)\n            if td['named_env']:\n                ret += '. %s\\n' % launcher.get_task_named_env(td['named_env'])\n\n")]),
+]
+
+SILENT += [
+    dict(name='per-rank CUDA key through a local rid = str(rank_id)', edits=[
+        (_E, "                rank_env[str(rank_id)] = \\\n", "                rid = str(rank_id)\n                rank_env[rid] = \\\n")]),
+    dict(name='per-rank CUDA key formatted with %d', edits=[
+        (_E, "                rank_env[str(rank_id)] = \\\n", "                rank_env['%d' % rank_id] = \\\n")]),
+    dict(name='per-rank CUDA entry as a dict comprehension with str keys', edits=[
+        (_E, _RANK_ENV,
+         "            rank_env = {str(i): 'export CUDA_VISIBLE_DEVICES=%s' %\n                                ','.join([str(g['index']) for g in slot['gpus']])\n                        for i,slot in enumerate(slots)}\n")]),
+    dict(name='consumer lookup key as f-string', edits=[
+        (_E, "                for cmd in ru.as_list(entry.get(str(rank_id))):", "                for cmd in ru.as_list(entry.get(f'{rank_id}')):")]),
+    dict(name='named env path through a local, exports through a local list', edits=[
+        (_E, "            ret += '. %s\\n' % launcher.get_task_named_env(td['named_env'])\n", "            env_sh = launcher.get_task_named_env(td['named_env'])\n            ret += '. %s\\n' % env_sh\n"),
+        (_E, "            for key, val in td['environment'].items():\n", "            env = td['environment']\n            for key, val in env.items():\n")]),
+    dict(name='environment block tests the dict with .get()', edits=[
+        (_E, "        if td['environment']:\n            ret += '\\n# task env settings\\n'", "        if td.get('environment'):\n            ret += '\\n# task env settings\\n'")]),
 ]
